@@ -380,6 +380,10 @@ type lpResult struct {
 	err2      error
 	panicked2 *rt.PanicInfo
 	watchdog2 bool
+	// Trickle: no pause between two pieces reached 800 ms, and how many
+	// reads were answered with the transient EOF
+	paceOK    bool
+	softReads int64
 }
 
 type lpOptions struct {
@@ -399,6 +403,12 @@ type lpOptions struct {
 	// the same connection; the peer answers its requests with this script.
 	Second    *lpScript
 	SecondCfg *tds.LoginConfig
+	// Trickle: PacketReadTimeout is 1 s and the last packet of the last
+	// reply arrives slowly - header and first quarter of the body at once,
+	// the other quarters 400 ms apart; a read that finds nothing inside the
+	// body is answered with (0, io.EOF) ("nothing there at the moment").
+	// No pause reaches the timeout, the packet takes longer than it.
+	Trickle bool
 }
 
 func lpPacketize(rnd *rt.Rand, items []lpItem, class string) [][]byte {
@@ -432,12 +442,20 @@ func lpRun(seed int64, s lpScript, cfg *tds.LoginConfig, opt lpOptions) lpResult
 	if opt.QueueSize > 0 {
 		qs = opt.QueueSize
 	}
-	k, err := newKit(qs, 0)
+	rto := 0
+	if opt.Trickle {
+		rto = 1
+	}
+	k, err := newKit(qs, rto)
 	if err != nil {
 		res.err = err
 		return res
 	}
 	res.kit = k
+	res.paceOK = true
+	var fed int64 // bytes handed to the transport so far
+	trickled := make(chan struct{})
+	var trickleOnce sync.Once
 	rounds := s.Rounds
 	if opt.Second != nil {
 		rounds = append(append([][]lpItem(nil), s.Rounds...), opt.Second.Rounds...)
@@ -486,6 +504,44 @@ func lpRun(seed int64, s lpScript, cfg *tds.LoginConfig, opt lpOptions) lpResult
 				last[1] &^= xport.EOM
 				pkts[len(pkts)-1] = last
 			}
+			if opt.Trickle && r == len(rounds)-1 && len(pkts) > 0 {
+				lastPkt := pkts[len(pkts)-1]
+				k.tr.Feed(pkts[:len(pkts)-1]...)
+				for _, p := range pkts[:len(pkts)-1] {
+					fed += int64(len(p))
+				}
+				start := fed
+				fed += int64(len(lastPkt))
+				k.tr.SoftEOF(start+8, start+int64(len(lastPkt)))
+				go func() {
+					defer trickleOnce.Do(func() { close(trickled) })
+					q := (len(lastPkt) - 8) / 4
+					t0 := time.Now()
+					for i := 0; i < 4; i++ {
+						lo, hi := 8+i*q, 8+(i+1)*q
+						if i == 0 {
+							lo = 0
+						}
+						if i == 3 {
+							hi = len(lastPkt)
+						}
+						if i > 0 {
+							time.Sleep(400 * time.Millisecond)
+							if time.Since(t0) > 800*time.Millisecond {
+								mu.Lock()
+								res.paceOK = false
+								mu.Unlock()
+							}
+							t0 = time.Now()
+						}
+						k.tr.Feed(lastPkt[lo:hi])
+					}
+				}()
+				return
+			}
+			for _, p := range pkts {
+				fed += int64(len(p))
+			}
 			if opt.Overtake && len(pkts) >= 2 {
 				k.tr.Feed(pkts[0])
 				awaitIdle(k.tr, 20*time.Second)
@@ -512,6 +568,9 @@ func lpRun(seed int64, s lpScript, cfg *tds.LoginConfig, opt lpOptions) lpResult
 		res.watchdog = true
 	}
 	res.elapsed = time.Since(t0)
+	if opt.Trickle {
+		res.softReads = k.tr.SoftReads()
+	}
 	if opt.Second != nil && !res.watchdog {
 		res.ran2 = true
 		ctx2, cancel2 := context.WithTimeout(k.ctx, opt.Timeout)
